@@ -23,6 +23,9 @@ def jsonable(x):
                 return s
         except UnicodeDecodeError:
             pass
+        printable = sum(1 for c in x if 32 <= c < 127 or c in (9, 10, 13))
+        if x and printable >= 0.85 * len(x) and len(x) <= 8192:
+            return {"text": x.decode("latin-1").encode("unicode_escape").decode("ascii").replace("\\n", "\n")}
         return {"hex": x.hex()} if len(x) <= 4096 else {"hex_prefix": x[:256].hex(), "len": len(x),
                                                         "sha1": hashlib.sha1(x).hexdigest()}
     if isinstance(x, (list, tuple)):
